@@ -226,6 +226,38 @@ fn p_sc<C: Ciphersuite>(s: &str) -> Option<SigningCommitments<C>> {
     Some(SigningCommitments::new(NonceCommitment::new(pe::<C>(a)?), NonceCommitment::new(pe::<C>(b)?)))
 }
 
+/// `fmt=fields`: the state was stored field by field (each in its own fixed-size encoding, the commitment vector with
+/// `serialize_whole`) and is rebuilt with `deserialize_whole` and the public constructor
+fn whole<C: Ciphersuite>(c: &frost_core::keys::VerifiableSecretSharingCommitment<C>) -> Option<Result<frost_core::keys::VerifiableSecretSharingCommitment<C>, ()>> {
+    let bytes = match c.serialize_whole() {
+        Ok(b) => b,
+        Err(_) => return Some(Err(())),
+    };
+    Some(frost_core::keys::VerifiableSecretSharingCommitment::<C>::deserialize_whole(&bytes).map_err(|_| ()))
+}
+fn fields_sp1<C: Ciphersuite>(s: &str) -> Option<Result<round1::SecretPackage<C>, ()>> {
+    let p = p_sp1::<C>(s)?;
+    let f: Vec<&str> = s.split(':').collect();
+    Some(match whole::<C>(p.commitment())? {
+        Ok(cm) => Ok(round1::SecretPackage::new(*p.identifier(), p_list(ps::<C>, f[1])?, cm, *p.min_signers(), *p.max_signers())),
+        Err(_) => Err(()),
+    })
+}
+fn fields_sp2<C: Ciphersuite>(s: &str) -> Option<Result<round2::SecretPackage<C>, ()>> {
+    let p = p_sp2::<C>(s)?;
+    Some(match whole::<C>(p.commitment())? {
+        Ok(cm) => Ok(round2::SecretPackage::new(*p.identifier(), cm, p.secret_share(), *p.min_signers(), *p.max_signers())),
+        Err(_) => Err(()),
+    })
+}
+fn fields_ss<C: Ciphersuite>(s: &str) -> Option<Result<SecretShare<C>, ()>> {
+    let p = p_ss::<C>(s)?;
+    Some(match whole::<C>(p.commitment())? {
+        Ok(cm) => Ok(SecretShare::new(*p.identifier(), *p.signing_share(), cm)),
+        Err(_) => Err(()),
+    })
+}
+
 macro_rules! load {
     ($a:expr, $key:expr, $json:expr, $t:ty) => {{
         let bytes = unhx($a.get($key)?)?;
@@ -265,6 +297,43 @@ fn resume<C: Ciphersuite>(a: &A) -> Option<String> {
         )
     };
     Some(match step {
+        "keypkg" if json == "fields" => match fields_ss::<C>(a.get("ss")?)? {
+            Ok(s) => f_out(KeyPackage::<C>::try_from(s), |kp| format!("kp={}", f_kp(&kp))),
+            Err(_) => derr(),
+        },
+        "refresh_share" if json == "fields" => match fields_ss::<C>(a.get("ss")?)? {
+            Ok(s) => {
+                let kp = p_kp::<C>(a.get("kp")?)?;
+                f_out(refresh::refresh_share(s, &kp), |kp| format!("kp={}", f_kp(&kp)))
+            }
+            Err(_) => derr(),
+        },
+        "dkg2" | "refresh_dkg2" if json == "fields" => match fields_sp1::<C>(a.get("sp")?)? {
+            Ok(sp) => {
+                let r1 = r1()?;
+                let r = if step == "dkg2" { dkg::part2(sp, &r1) } else { refresh::refresh_dkg_part2(sp, &r1) };
+                f_out(r, |(sp2, r2)| {
+                    format!(
+                        "sp2={} r2={}",
+                        f_sp2(&sp2),
+                        f_ff::<C>(r2.iter().map(|(i, p)| (*i, p.signing_share().to_scalar())))
+                    )
+                })
+            }
+            Err(_) => derr(),
+        },
+        "dkg3" | "refresh_dkg3" if json == "fields" => match fields_sp2::<C>(a.get("sp2")?)? {
+            Ok(sp) => {
+                let (r1, r2) = (r1()?, r2()?);
+                let r = if step == "dkg3" {
+                    dkg::part3(&sp, &r1, &r2)
+                } else {
+                    refresh::refresh_dkg_shares(&sp, &r1, &r2, p_pkp::<C>(a.get("pkp")?)?, p_kp::<C>(a.get("kp")?)?)
+                };
+                f_out(r, |(kp, pkp)| format!("kp={} pkp={}", f_kp(&kp), f_pkp(&pkp)))
+            }
+            Err(_) => derr(),
+        },
         "keypkg" => {
             let s = load!(a, "ss", json, SecretShare<C>);
             f_out(KeyPackage::<C>::try_from(s), |kp| format!("kp={}", f_kp(&kp)))
